@@ -33,6 +33,10 @@ def spellings(path):
     first = segs[0]
     enc0 = first[0] + "%%%02X" % ord(first[1]) + first[2:] if len(first) > 2 else first
     out.append(("pct_encoded_prefix", "/" + "/".join([enc0] + segs[1:])))
+    # a query string does not change which handler is reached; one that ends like a static file name must not
+    # change the access decision either
+    out.append(("query_plain", path + "?_=1"))
+    out.append(("query_static_ext", path + "?_=app.js"))
     return out
 
 
